@@ -93,6 +93,12 @@ impl Cmp {
                     let ib = &inp["body"];
                     let ob = &out["body"];
                     if ty(ib) != "BlockStatement" && ty(ob) == "BlockStatement" {
+                        // only an arrow whose own body holds JSX can need declarations
+                        if !contains_jsx(ib) {
+                            return Err(format!(
+                                "{path}.body: expression body of a JSX-free arrow became a block"
+                            ));
+                        }
                         let stmts = ob["stmts"].as_array().cloned().unwrap_or_default();
                         let Some((last, decls)) = stmts.split_last() else {
                             return Err(format!("{path}.body: empty block"));
@@ -346,5 +352,19 @@ pub fn only_hints_differ(on: &Value, off: &Value, path: &str) -> Result<(), Stri
                 Err(format!("{path}: {x} vs {y}"))
             }
         }
+    }
+}
+
+
+fn contains_jsx(v: &Value) -> bool {
+    match v {
+        Value::Object(o) => {
+            if is_jsx_expr(v) {
+                return true;
+            }
+            o.values().any(contains_jsx)
+        }
+        Value::Array(a) => a.iter().any(contains_jsx),
+        _ => false,
     }
 }
